@@ -87,8 +87,8 @@ check("C17", "model_checking", "simfs",
       "DESIGN.md section 3, C17")
 check("C03", "model_checking", "simkernel",
       "explicit-state search over the real Arbiter.run() inside a simulated kernel (fork/kill/waitpid/select/time/signals owned by the harness): states = canonical master state at quiescence, transitions = environment events (worker exit statuses, TTIN, TTOU, HUP, tick, simultaneous pairs), plus every mid-flight event at every delivery point of each transition (deviation bound 1); pool invariants evaluated after a settling period",
-      "For 8 (thorough 19) configurations of workers/timeout/worker reaction all histories up to depth 3 (thorough 4) are explored with canonical-state deduplication, and every transition is re-run with each of 6 asynchronous events injected at every signal-delivery point (facade call entries/returns and WORKERS accesses) - about 160k complete runs of the real main loop in the quick tier. Invariants: no zombie / untracked child / dead tracked worker, active workers == reference target, num_workers == fold of TTIN/TTOU/HUP with signal coalescing, oldest-first retirement, boot-error status halts with that status, nothing but SystemExit leaves run().",
-      "Trusted: vlib/simkernel.py (process table, signal delivery at facade calls, virtual time); workers are modelled processes; delivery points are call boundaries and shared-dict accesses, not arbitrary bytecodes; two known findings (fork/SIGCHLD bookkeeping race) are listed in known_findings.json.",
+      "For 9 (thorough 20) configurations of workers/timeout/worker reaction (incl. a non-worker child of the master and a wrapped pid counter) all histories up to depth 3 (thorough 4) are explored with canonical-state deduplication, and every transition is re-run with each of 6 asynchronous events injected at every signal-delivery point (facade call entries/returns, WORKERS accesses, the clock reads of the timeout scan) - about 160k complete runs of the real main loop in the quick tier. 12 (thorough 40) explored histories are replayed on a real master with real workers and must show the same number of live workers. Invariants: no zombie / untracked child / dead tracked worker, active workers == reference target, num_workers == fold of TTIN/TTOU/HUP with signal coalescing, oldest-first retirement, boot-error status halts with that status, nothing but SystemExit leaves run().",
+      "Trusted: vlib/simkernel.py (process table, signal delivery at facade calls, virtual time), validated by the replay on real masters; workers are modelled processes; delivery points are call boundaries and shared-dict accesses, not arbitrary bytecodes; two known findings (fork/SIGCHLD bookkeeping race) are listed in known_findings.json.",
       "DESIGN.md section 3, C03; Appendix C")
 
 check("C04", "exploration", "simkernel+realproc",
@@ -122,8 +122,8 @@ check("C11", "model_checking", "simkernel+realproc",
 
 check("C13", "model_checking", "gsched",
       "explicit-state model checking of the real ThreadWorker under a controlled scheduler: breadth-first search over environment histories delivered at quiescence (connect, stolen accept, keep-alive / close / gated / half request, rest, client close, gate release, tick, simultaneous pairs) with canonical-state deduplication, and inside every transition all schedules of main loop and pool threads with a bounded number of deviations at the scheduling points; invariants at every quiescent state, bounded liveness by a drain continuation from every state",
-      "7 (thorough 13) configurations of threads / worker_connections / keepalive; quick: ~4.9k distinct states, ~23k transitions, ~208k complete executions of the real run()/accept()/handle()/finish_request()/murder_keepalived() code with selector, sockets, executor, futures, lock and clock substituted. Checked: nr_conns equals the open accepted connections and never exceeds the limit, every open connection is in exactly one of poller / job, _keep members are registered, idle connections are closed by the first reaper pass after their deadline and not before, no close while a request is handled, no use after close / double register; from every state: complete requests are dispatched while a thread is free, everything is closed and nr_conns == 0 once clients left, run() returns after TERM.",
-      "Trusted: vlib/gsched.py and vlib/gtbench.py (simulated selector/sockets/executor); scheduling points are operations on shared objects, the code between two points is atomic (so `nr_conns += 1` is one step, as on the CPython 3.12 interpreter here - on 3.7-3.9 interpreters it is not); deviation bound 1 (thorough 2); one known finding (busy loop at capacity) is listed.",
+      "8 (thorough 15) configurations of threads / worker_connections / keepalive / clients; quick: ~8.8k distinct states, ~40k transitions, ~360k complete executions of the real run()/accept()/handle()/finish_request()/murder_keepalived() code with selector, sockets, executor, futures, lock and clock substituted. Checked: nr_conns equals the open accepted connections and never exceeds the limit, every open connection is in exactly one of poller / job, _keep members are registered, idle connections are closed by the first reaper pass after their deadline and not before, no close while a request is handled, no use after close / double register; from every state: complete requests are dispatched while a thread is free, everything is closed and nr_conns == 0 once clients left, run() returns after TERM.",
+      "Trusted: vlib/gsched.py and vlib/gtbench.py (simulated selector/sockets/executor); scheduling points are operations on shared objects, the code between two points is atomic (so `nr_conns += 1` is one step, as on the CPython 3.12 interpreter here - on 3.7-3.9 interpreters it is not); deviation bound 1 (thorough 2); a busy main loop is modelled as time passing; two known defects (never polling at capacity; pipelined requests never dispatched) with five fingerprints are listed.",
       "DESIGN.md section 3, C13; Appendix D")
 
 check("C18", "exploration", "gsched",
